@@ -612,6 +612,43 @@ pub fn run(cfg: &Cfg) {
         let d = if i % 3 == 0 { let k = r.below(80); r.bytes(k) } else { let s = r.pick(&der_seeds).clone(); mutate(&mut r, &s) };
         feed_key_importers(&mut sink, &d);
     }
+    // envelope pre-authentication encodings whose text fields are not text: a field that ends inside a
+    // multi-byte character (the declared length cuts it, the input ends there, the length field itself ends
+    // in a lead byte), bytes that are no UTF-8 at all, and every truncation of an envelope with non-ASCII
+    // type and payload; each error is also turned into its message (a `Display` that panics is a panic)
+    {
+        let mut frames: Vec<Vec<u8>> = vec![
+            b"DSSEv1 2 l\xc3\xadnk 0 ".to_vec(),
+            b"DSSEv1 4\xc3 link 0 ".to_vec(),
+            b"DSSEv1 3 \xe2\x82".to_vec(),
+            b"DSSEv1 3 \xe2\x82\xac 1 \xe2".to_vec(),
+            b"DSSEv1 1 \xf0 0 ".to_vec(),
+            b"DSSEv1 2 \xf0\x9f 0 ".to_vec(),
+            b"DSSEv1 3 \xf0\x9f\x98 0 ".to_vec(),
+            b"DSSEv1 1 \xff 0 ".to_vec(),
+            b"DSSEv1 \xe2\x82 x 0 ".to_vec(),
+            b"DSSEv1 1 x \xe2\x82".to_vec(),
+            b"DSSEv1 1 x 2\xe2 ab".to_vec(),
+        ];
+        let whole = hooks::pae_pack("pay\u{20ac}load \u{1F600}".as_bytes(), "application/vnd.\u{e9}t\u{e9}+json\u{1F600}".into());
+        for cut in 0..whole.len() {
+            frames.push(whole[..cut].to_vec());
+        }
+        for f in &frames {
+            feed(&mut sink, "pae_unpack", f, |b| hooks::pae_unpack(b).map_err(|e| e.to_string()).is_ok());
+            feed(&mut sink, "pae_try_unpack", f, |b| hooks::pae_try_unpack(b).map_err(|e| e.to_string()).is_ok());
+        }
+        // the conversions from the standard library's text errors, as such
+        for bad in [&[0xe2u8, 0x82][..], &[0xff], &[0x61, 0xc3], &[0xf0, 0x9f, 0x98], &[0xc3, 0x28]] {
+            let b = bad.to_vec();
+            let res = guarded(move || {
+                let e1: in_toto::Error = std::str::from_utf8(&b).unwrap_err().into();
+                let _ = e1.to_string();
+                true
+            });
+            sink.oracle(res.is_ok(), "turning a text-decoding error into the crate's error panicked", &format!("bytes {}", hex(bad)));
+        }
+    }
     // deep nesting up to and beyond serde_json's recursion limit
     for depth in [10usize, 100, 127, 128, 129, 1000, 100_000] {
         let open: String = "[".repeat(depth);
